@@ -114,10 +114,16 @@ class FnVal:
 
 class SliceVal:
     """abstract &[u8] / &str: only the length is tracked (an Int of type usize)"""
-    __slots__ = ('len', 'tag')
+    __slots__ = ('len', 'tag', 'tail')
 
-    def __init__(self, length, tag=''):
+    def __init__(self, length, tag='', tail=None):
         self.len, self.tag = length, tag
+        self.tail = tail        # polynomial: number of bytes of the underlying string behind this slice's end (None = 0: a suffix slice)
+
+    def pos(self, k=0):
+        """position (remaining length of the underlying string) of element k"""
+        p = padd(self.len.p, pconst(k), -1)
+        return padd(p, self.tail) if self.tail else p
 
     def __repr__(self):
         return 'Slice(len=%r)' % (self.len,)
@@ -1369,7 +1375,7 @@ class Interp:
                 elif isinstance(v, SliceVal):
                     if getattr(self.opts, 'byte_positions', False) and not e.get('from_end'):
                         from .models import byte_at, deref as _deref
-                        v = _deref(self, st, byte_at(self, st, self.mk(st, 'usize', padd(v.len.p, pconst(e['cindex']), -1), 0, None)))
+                        v = _deref(self, st, byte_at(self, st, self.mk(st, 'usize', v.pos(e['cindex']), 0, None)))
                     else:
                         v = st.fresh('u8', 0, 255, 'byte')      # content of a slice of unknown bytes (the bounds check is a separate assert)
                 else:
@@ -1577,7 +1583,7 @@ class Interp:
                 # &s[k]: a reference to one element (the bounds check is a separate assert)
                 from .models import byte_at, _fresh_byte_ref
                 if getattr(self.opts, 'byte_positions', False):
-                    return byte_at(self, st, self.mk(st, 'usize', padd(base.len.p, pconst(proj[1]['cindex']), -1), 0, None))
+                    return byte_at(self, st, self.mk(st, 'usize', base.pos(proj[1]['cindex']), 0, None))
                 return _fresh_byte_ref(self, st)
             if isinstance(base, SliceVal) and len(proj) == 2 and isinstance(proj[1], dict) and str(proj[1].get('other', '')).startswith('Subslice'):
                 # &s[from .. len - to]   (slice patterns `[a, rest @ ..]`): only the length is tracked
@@ -1587,7 +1593,7 @@ class Interp:
                     newlen = padd(base.len.p, pconst(a_ + b_), -1) if fe else pconst(b_ - a_)
                     if not st.sign(newlen) <= NONNEG:
                         raise Stop('subslice [%d..%s%d] of a slice not known to be long enough' % (a_, 'len-' if fe else '', b_))
-                    return SliceVal(self.mk(st, 'usize', newlen, 0, None), base.tag)
+                    return SliceVal(self.mk(st, 'usize', newlen, 0, None), base.tag, (padd(base.tail or {}, pconst(b_)) if (b_ or base.tail) and fe else base.tail))
             if isinstance(base, Agg) and base.kind in ('strref', 'string', 'fmtargs') and len(proj) == 1:
                 return base
             raise Stop('reborrow of %r' % (base,))
